@@ -77,3 +77,23 @@ def handlersSpec : List (String × Handler) :=
   [("spec_circuit", h_specCircuit), ("wellposed", h_wellposed)]
 
 end CC
+
+namespace CC
+open Lean
+
+/-- op `spec_power`: exact power bookkeeping for a report: per branch `p − v·conj(i)` and the
+Tellegen sum `Σ v·conj(J)` with `J` the physical current (linear sources counted as delivered) -/
+def h_specPower : Handler := fun j => do
+  let N ← getNet (← j.getObjVal? "net")
+  let R ← getReport (← j.getObjVal? "report")
+  let p ← getMap (← j.getObjVal? "report") "p"
+  let tell := (N.branches.map fun b => R.v b.id * GQ.conj (b.e.physCurrent (R.i b.id))).sum
+  pure (Json.mkObj [
+    ("tellegen", jsonGQ tell),
+    ("presid", Json.mkObj (N.branches.map fun b =>
+      (b.id, jsonGQ (lookupGQ p b.id - R.v b.id * GQ.conj (R.i b.id))))),
+    ("lossy", Json.mkObj (N.branches.map fun b => (b.id, Json.bool b.e.isLossy)))])
+
+def handlersSpec2 : List (String × Handler) := [("spec_power", h_specPower)]
+
+end CC
